@@ -385,6 +385,35 @@ def obligations(tier):
         return out
     for N in (2, 3):
         add("_tt:tensor_train", f"N={N},unconstrained ranks (clipping paths)", tt_setup(N), run_tt_clip, tt_clip_post, dict(order=N, clipping=True), "ranks clipped to the unfolding sizes, never exceeded")
+    # ---- TT-matrix: core k has shape (r_k, in_k, out_k, r_k+1) with boundary ranks 1; one core for a plain matrix; the inner TT-SVD works on the interleaved
+    #      (in_k * out_k) modes with the requested ranks
+    for d in (1, 2) + ((3,) if tier == "thorough" else ()):
+        def ttm_setup(S, d=d):
+            ins, outs = dims(d, "in"), dims(d, "out")
+            return dict(_S=S, X=S.input("X", ins + outs), ins=ins, outs=outs, rk=[1] + [atom(f"r{k}") for k in range(1, d)] + [1])
+        def ttm_pre(I, d=d):
+            sz = [a * b for a, b in zip(I["ins"], I["outs"])]
+            out = []
+            for k in range(1, d):
+                out.append(I["rk"][k] <= I["rk"][k - 1] * sz[k - 1])
+                out.append(I["rk"][k] <= sprod(sz[k:]))
+            return out
+        def run_ttm(I):
+            S = I["_S"]
+            rec = []
+            with stubbed(_tt, svd_interface=make_svd_stub(S, rec)):
+                t = _tt.tensor_train_matrix(I["X"], list(I["rk"]))
+            return dict(cores=list(t.factors), rec=rec)
+        def ttm_post(S, I, r, d=d):
+            out = [("one core per (input mode, output mode) pair", len(r["cores"]), d), ("one truncated SVD per core but the last", len(r["rec"]), d - 1)]
+            if len(r["cores"]) != d:
+                return out
+            for k, Gk in enumerate(r["cores"]):
+                out.append((f"core {k} has shape (r_k, in_k, out_k, r_k+1), boundary ranks 1", tuple(S.shape(Gk)), (I["rk"][k], I["ins"][k], I["outs"][k], I["rk"][k + 1])))
+            for k, c in enumerate(r["rec"]):
+                out.append((f"step {k}: n_eigenvecs ≡ requested rank r_{k + 1}", c["n_eigenvecs"], I["rk"][k + 1]))
+            return out
+        add("_tt:tensor_train_matrix", f"d={d}", ttm_setup, run_ttm, ttm_post, dict(n_cores=d), "TT-matrix core shapes ∧ boundary ranks ∧ requested ranks", assumptions=ttm_pre)
     # ---- tensor ring SVD (every starting mode)
     def tr_setup(N):
         def setup(S):
